@@ -222,6 +222,29 @@ def cost(c, item):
             ll = -math.sqrt(float(np.sum((4.0 * np.exp(-t) - sim) ** 2)))
             if not math.isfinite(got) or abs(got - (exp + ll)) > 1e-5 * (1 + abs(exp + ll)):
                 c.violation('C16/%s/cost-value' % name, 'cost_function(%r) = %r, log-density + likelihood = %r' % (x, got, exp + ll), case)
+    # drawing start values for the walkers (from the prior, or around the model's values) must leave the prior as it is
+    probe = [x for x in values(support) if x > 0][:6] + [-0.3]
+    def snapshot():
+        out = []
+        for x in probe:
+            with np.errstate(all='ignore'):
+                out.append(float(ins.cost_function([x])))
+        return out
+    try:
+        before = snapshot()
+        for seed_kw in ('prior', 0.1):
+            try:
+                ins.seed_parameter_values(init_seed=seed_kw)
+            except ValueError:
+                pass        # 'prior' seeding is offered for uniform, gaussian and log-uniform only
+            after = snapshot()
+            c.count('evaluations'); c.count('transitions')
+            if any(not (a == b or abs(a - b) <= 1e-12 * (1 + abs(a))) for a, b in zip(before, after)):
+                c.violation('C16/%s/prior-changed-by-seeding' % name, 'after seed_parameter_values(init_seed=%r) the cost at %s went from %s to %s' % (
+                    seed_kw, probe, before, after), dict(family=name, params=pars, positive=positive, x=probe[0], via='cost_function'))
+                break
+    except Exception as e:
+        c.violation('C16/%s/cost-exception' % name, 'seeding start values raised %r' % e, dict(family=name, params=pars, positive=positive, x=probe[0], via='cost_function'))
     c.count('states')
 
 
